@@ -42,6 +42,12 @@ type c09Hier struct {
 	edge    [4][4]byte // edge[i][j] (i<j): 0 none, 'v' Ti embeds Tj, 'p' Ti embeds *Tj
 	x, m, p [4]bool
 	se      bool // methods are String() string / Error() string and the interfaces are fmt.Stringer / error
+	// q[k] is the role of the homonym name Q in Tk (c09_homonym.go): 0 none, 'F' field Q int, 'G' field Q func() int,
+	// 'm' method Q() int with a value receiver, 'p' method Q() int with a pointer receiver
+	q [4]byte
+	// late[k]: the methods of Tk are declared in a second chunk, after every site has been compiled and run once
+	// (compiled Go sees one program; the interpreter must not answer from lookups cached before the declaration)
+	late [4]bool
 }
 
 func (hr *c09Hier) mname() string {
@@ -74,6 +80,12 @@ func (hr *c09Hier) String() string {
 		if hr.p[k] {
 			sb.WriteByte('P')
 		}
+		if hr.q[k] != 0 {
+			sb.WriteString("Q" + string(hr.q[k]))
+		}
+		if hr.late[k] {
+			sb.WriteString("(late)")
+		}
 		for j := k + 1; j < hr.n; j++ {
 			switch hr.edge[k][j] {
 			case 'v':
@@ -90,45 +102,74 @@ func (hr *c09Hier) String() string {
 	return sb.String()
 }
 
+// c09Phase2 separates, inside Prog.Decls, the declarations evaluated before the warm-up run of the sites from those
+// evaluated after it (c09Run). Compiled Go sees a comment.
+const c09Phase2 = "//c09:phase2\n"
+
 // decls renders the package-level declarations with every name suffixed by id.
 func (hr *c09Hier) decls(id string) string {
-	var sb strings.Builder
+	var all, lateDecls strings.Builder
+	sb := &all
 	for k := hr.n - 1; k >= 0; k-- {
-		fmt.Fprintf(&sb, "type T%d%s struct {\nV%d int\n", k, id, k)
+		sb = &all
+		fmt.Fprintf(sb, "type T%d%s struct {\nV%d int\n", k, id, k)
 		if hr.x[k] {
 			sb.WriteString("X int\n")
+		}
+		switch hr.q[k] {
+		case 'F':
+			sb.WriteString("Q int\n")
+		case 'G':
+			sb.WriteString("Q func() int\n")
 		}
 		for j := k + 1; j < hr.n; j++ {
 			switch hr.edge[k][j] {
 			case 'v':
-				fmt.Fprintf(&sb, "T%d%s\n", j, id)
+				fmt.Fprintf(sb, "T%d%s\n", j, id)
 			case 'p':
-				fmt.Fprintf(&sb, "*T%d%s\n", j, id)
+				fmt.Fprintf(sb, "*T%d%s\n", j, id)
 			}
 		}
 		sb.WriteString("}\n")
+		if hr.late[k] {
+			sb = &lateDecls
+		}
+		switch hr.q[k] {
+		case 'm':
+			fmt.Fprintf(sb, "func (t T%d%s) Q() int { return %d + t.V%d }\n", k, id, 700*(k+1), k)
+		case 'p':
+			fmt.Fprintf(sb, "func (t *T%d%s) Q() int {\nt.V%d += 100\nreturn %d + t.V%d\n}\n", k, id, k, 7000*(k+1), k)
+		}
 		if hr.m[k] {
 			if hr.se {
-				fmt.Fprintf(&sb, "func (t T%d%s) String() string { return \"S%d:\" + string(rune(48+t.V%d)) }\n", k, id, k, k)
+				fmt.Fprintf(sb, "func (t T%d%s) String() string { return \"S%d:\" + string(rune(48+t.V%d)) }\n", k, id, k, k)
 			} else {
-				fmt.Fprintf(&sb, "func (t T%d%s) M() int { return %d + t.V%d }\n", k, id, 100*(k+1), k)
+				fmt.Fprintf(sb, "func (t T%d%s) M() int { return %d + t.V%d }\n", k, id, 100*(k+1), k)
 			}
 		}
 		if hr.p[k] {
 			if hr.se {
-				fmt.Fprintf(&sb, "func (t *T%d%s) Error() string {\nt.V%d += 2\nreturn \"E%d:\" + string(rune(48+t.V%d))\n}\n", k, id, k, k, k)
+				fmt.Fprintf(sb, "func (t *T%d%s) Error() string {\nt.V%d += 2\nreturn \"E%d:\" + string(rune(48+t.V%d))\n}\n", k, id, k, k, k)
 			} else {
-				fmt.Fprintf(&sb, "func (t *T%d%s) P() int {\nt.V%d += 10\nreturn %d + t.V%d\n}\n", k, id, k, 1000*(k+1), k)
+				fmt.Fprintf(sb, "func (t *T%d%s) P() int {\nt.V%d += 10\nreturn %d + t.V%d\n}\n", k, id, k, 1000*(k+1), k)
 			}
 		}
 	}
+	sb = &all
 	if hr.se {
-		fmt.Fprintf(&sb, "type J%s interface {\nfmt.Stringer\nError() string\n}\n", id)
+		fmt.Fprintf(sb, "type J%s interface {\nfmt.Stringer\nError() string\n}\n", id)
 	} else {
-		fmt.Fprintf(&sb, "type I%s interface{ M() int }\n", id)
-		fmt.Fprintf(&sb, "type J%s interface {\nM() int\nP() int\n}\n", id)
+		fmt.Fprintf(sb, "type I%s interface{ M() int }\n", id)
+		fmt.Fprintf(sb, "type J%s interface {\nM() int\nP() int\n}\n", id)
 	}
-	fmt.Fprintf(&sb, "func mk%s(d int) T0%s {\nreturn %s\n}\n", id, id, hr.lit(0, id))
+	if hr.declared('Q') != 0 {
+		fmt.Fprintf(sb, "type IQ%s interface{ Q() int }\n", id)
+	}
+	fmt.Fprintf(sb, "func mk%s(d int) T0%s {\nreturn %s\n}\n", id, id, hr.lit(0, id))
+	if lateDecls.Len() != 0 {
+		sb.WriteString(c09Phase2)
+		sb.WriteString(lateDecls.String())
+	}
 	return sb.String()
 }
 
@@ -136,6 +177,12 @@ func (hr *c09Hier) lit(k int, id string) string {
 	s := fmt.Sprintf("T%d%s{V%d: %d + d", k, id, k, k+1)
 	if hr.x[k] {
 		s += fmt.Sprintf(", X: %d + d", 10*(k+1))
+	}
+	switch hr.q[k] {
+	case 'F':
+		s += fmt.Sprintf(", Q: %d + d", 5000+10*k)
+	case 'G':
+		s += fmt.Sprintf(", Q: func() int { return %d + d }", 6000+10*k)
 	}
 	for j := k + 1; j < hr.n; j++ {
 		switch hr.edge[k][j] {
@@ -163,6 +210,10 @@ func (hr *c09Hier) declared(name byte) int {
 			}
 		case 'P':
 			if hr.p[k] {
+				n++
+			}
+		case 'Q':
+			if hr.q[k] != 0 {
 				n++
 			}
 		}
@@ -355,7 +406,7 @@ var c09ImportUse = map[string]string{"fmt": "fmt.Sprint", "time": "time.Second",
 
 // c09Feature describes how Go resolves member name on T0 (part of the violation signature).
 func c09Feature(hr *c09Hier, pkg *types.Package, id string, name byte) string {
-	goName := map[byte]string{'X': "X", 'M': hr.mname(), 'P': hr.pname()}[name]
+	goName := map[byte]string{'X': "X", 'M': hr.mname(), 'P': hr.pname(), 'Q': "Q"}[name]
 	decl := hr.declared(name)
 	if decl == 0 {
 		return string(name) + ":undeclared"
@@ -376,6 +427,14 @@ func c09Feature(hr *c09Hier, pkg *types.Package, id string, name byte) string {
 	f := string(name) + ":promoted"
 	if len(index) == 1 {
 		f = string(name) + ":direct"
+	}
+	if name == 'Q' {
+		// the homonym: Go selects a field or a method
+		if _, isField := o.(*types.Var); isField {
+			f = strings.Replace(f, ":", ":field-", 1)
+		} else {
+			f = strings.Replace(f, ":", ":method-", 1)
+		}
 	}
 	if indirect {
 		f += "+viaptr"
@@ -410,6 +469,11 @@ type c09Group struct {
 	sites   []c09Site
 	render  func(st *c09Site, id string) string
 	sigOf   func(st *c09Site, pkg *types.Package) string
+	// embedRejects: the sites Go rejects do not become programs of their own (a fresh interpreter each): they travel
+	// inside the program of the hierarchy as comments ("//rsite k sig=…" followed by the code behind "//| "). Compiled
+	// Go ignores them; c09Run compiles each one separately after the valid sites — the interpreter must refuse to
+	// compile it, otherwise the record "<k NOT-REJECTED>" is added to the output and the program mismatches.
+	embedRejects bool
 }
 
 // addGroup judges every site with go/types: one program with all the accepted sites, one per rejected site.
@@ -426,13 +490,18 @@ func (g *c09Gen) addGroup(gr *c09Group) {
 	}
 	var body strings.Builder
 	fmt.Fprintf(&body, "// hier: %s\n", gr.desc)
-	nvalid := 0
+	nvalid, nembedded := 0, 0
 	var rejects []oracle.Prog
 	for i := range gr.sites {
 		sig := gr.sigOf(&gr.sites[i], pkg)
 		if verdict[i] == "" {
 			nvalid++
 			fmt.Fprintf(&body, "//site %d sig=%s\nSite(%d, func() {\n%s\n})\n", i+1, sig, i+1, codes[i])
+			continue
+		}
+		if gr.embedRejects {
+			nembedded++
+			fmt.Fprintf(&body, "//rsite %d sig=%s|go-rejects:%s\n// go: %s\n//| %s\n", i+1, sig, c09Reason(verdict[i]), verdict[i], strings.ReplaceAll(codes[i], "\n", "\n//| "))
 			continue
 		}
 		rid := fmt.Sprintf("%sr%d", id, i+1)
@@ -444,7 +513,10 @@ func (g *c09Gen) addGroup(gr *c09Group) {
 	g.nh++
 	g.stats["sites_valid"] += nvalid
 	g.stats["sites_go_rejects"] += len(rejects)
-	if nvalid > 0 {
+	if nembedded != 0 {
+		g.stats["sites_go_rejects_embedded"] += nembedded
+	}
+	if nvalid > 0 || nembedded > 0 {
 		g.progs = append(g.progs, oracle.Prog{ID: id, Decls: decls, Imports: gr.imports, Body: body.String()})
 	}
 	g.progs = append(g.progs, rejects...)
@@ -664,6 +736,9 @@ func c09Programs(c *core.Ctx) []oracle.Prog {
 			hiers = append(hiers, hr)
 		}
 	}
+	// the homonym and late-declaration hierarchies (c09_homonym.go) follow the base ones
+	nplain := len(hiers)
+	hiers = append(hiers, c09ExtraHiers(c)...)
 	// judge the hierarchies in parallel (go/types), keep the generator's order
 	type job struct {
 		i  int
@@ -678,7 +753,16 @@ func c09Programs(c *core.Ctx) []oracle.Prog {
 			defer wg.Done()
 			for j := range jobs {
 				sg := &c09Gen{c: c, stats: map[string]int{}}
-				sg.addHier("h"+strconv.Itoa(j.i), j.hr)
+				if j.i < nplain {
+					sg.addHier("h"+strconv.Itoa(j.i), j.hr)
+				} else {
+					sg.addHierQ("q"+strconv.Itoa(j.i-nplain), j.hr)
+					if j.hr.anyLate() {
+						sg.stats["hierarchies_late_decl"]++
+					} else {
+						sg.stats["hierarchies_homonym"]++
+					}
+				}
 				sub[j.i] = sg
 			}
 		}()
@@ -696,9 +780,24 @@ func c09Programs(c *core.Ctx) []oracle.Prog {
 		}
 	}
 	g.genMisc()
+	g.genTsw()
 	c.Set("hierarchies", g.nh)
 	for k, v := range g.stats {
 		c.Set(k, v)
+	}
+	if only := os.Getenv("VERIF_C09_ONLY"); only != "" {
+		// debugging aid: keep the programs whose ID starts with one of the comma-separated prefixes
+		var keep []oracle.Prog
+		for _, p := range g.progs {
+			for _, pre := range strings.Split(only, ",") {
+				if strings.HasPrefix(p.ID, pre) {
+					keep = append(keep, p)
+					break
+				}
+			}
+		}
+		c.Cap("VERIF_C09_ONLY=" + only)
+		return keep
 	}
 	return g.progs
 }
@@ -708,10 +807,36 @@ func c09Programs(c *core.Ctx) []oracle.Prog {
 
 var c09SiteRx = regexp.MustCompile(`(?m)^//site (\d+) sig=(.*)$`)
 
+// c09RSiteRx: a site Go rejects, embedded in the program as comments (see c09Group.embedRejects)
+var c09RSiteRx = regexp.MustCompile(`(?m)^//rsite (\d+) sig=(.*)$`)
+
+type c09RSite struct{ k, sig, code string }
+
+func c09RSites(body string) []c09RSite {
+	var out []c09RSite
+	for _, loc := range c09RSiteRx.FindAllStringSubmatchIndex(body, -1) {
+		rs := c09RSite{k: body[loc[2]:loc[3]], sig: body[loc[4]:loc[5]]}
+		for _, line := range strings.Split(body[loc[1]:], "\n")[1:] {
+			if strings.HasPrefix(line, "//| ") {
+				rs.code += line[4:] + "\n"
+			} else if !strings.HasPrefix(line, "// go: ") {
+				break
+			}
+		}
+		out = append(out, rs)
+	}
+	return out
+}
+
 func c09Run(p *oracle.Prog) twin.Result {
 	ir := twin.NewFast()
 	locs := c09SiteRx.FindAllStringSubmatchIndex(p.Body, -1)
-	if len(locs) == 0 {
+	rsites := c09RSites(p.Body)
+	phase1, phase2 := p.Decls, ""
+	if i := strings.Index(p.Decls, c09Phase2); i >= 0 {
+		phase1, phase2 = p.Decls[:i], p.Decls[i+len(c09Phase2):]
+	}
+	if len(locs) == 0 && len(rsites) == 0 && phase2 == "" {
 		return twin.Run(ir, p)
 	}
 	for _, im := range p.Imports {
@@ -720,20 +845,65 @@ func c09Run(p *oracle.Prog) twin.Result {
 		}
 	}
 	var res twin.Result
-	if p.Decls != "" {
+	evalDecls := func(src string) bool {
+		if src == "" {
+			return true
+		}
 		var declErr interface{}
 		if perr := twin.Catch(func() {
-			e := ir.Compile(p.Decls)
+			e := ir.Compile(src)
 			if e != nil {
 				declErr = twin.Catch(func() { ir.RunExpr(e) })
 			}
 		}); perr != nil {
 			res.CompileErr = "declarations: " + fmt.Sprint(perr)
-			return res
+			return false
 		}
 		if declErr != nil {
 			res.Out = "DECL-" + h.Finish(declErr)
+			return false
+		}
+		return true
+	}
+	if !evalDecls(phase1) {
+		return res
+	}
+	// blocks returns the source of every site (the whole body for a program without site markers)
+	type block struct{ k, src string }
+	var blocks []block
+	for i, loc := range locs {
+		end := len(p.Body)
+		if i+1 < len(locs) {
+			end = locs[i+1][0]
+		}
+		blocks = append(blocks, block{p.Body[loc[2]:loc[3]], p.Body[loc[1]:end]})
+	}
+	if phase2 != "" {
+		// warm-up: every site is compiled and run once against the declarations of the first chunk (whatever it
+		// does — most do not even compile yet — is discarded), so that every lookup cache is populated; then the
+		// second chunk is declared
+		warm := blocks
+		if len(warm) == 0 && len(rsites) == 0 {
+			warm = []block{{"0", p.Body}}
+		}
+		for _, rs := range rsites {
+			warm = append(warm, block{"r" + rs.k, rs.code})
+		}
+		for _, b := range warm {
+			fn := "W_" + p.ID + "_" + b.k
+			twin.Catch(func() {
+				if e := ir.Compile("func " + fn + "() {" + b.src + "\n}"); e != nil {
+					ir.RunExpr(e)
+				}
+				call := ir.Compile(fn + "()")
+				h.Exec(func() { ir.RunExpr(call) })
+			})
+		}
+		if !evalDecls(phase2) {
 			return res
+		}
+		if len(locs) == 0 && len(rsites) == 0 {
+			return twin.RunSrc(ir, "func P_"+p.ID+"() {\n"+p.Body+"\n}\n", "P_"+p.ID+"()")
 		}
 	}
 	done := make(chan struct{})
@@ -747,13 +917,8 @@ func c09Run(p *oracle.Prog) twin.Result {
 		}
 	}()
 	var out strings.Builder
-	for i, loc := range locs {
-		k := p.Body[loc[2]:loc[3]]
-		end := len(p.Body)
-		if i+1 < len(locs) {
-			end = locs[i+1][0]
-		}
-		block := p.Body[loc[1]:end]
+	for _, b := range blocks {
+		k, block := b.k, b.src
 		fn := "P_" + p.ID + "_" + k
 		var perr interface{}
 		perr = twin.Catch(func() {
@@ -774,6 +939,19 @@ func c09Run(p *oracle.Prog) twin.Result {
 			continue
 		}
 		out.WriteString(h.Exec(func() { ir.RunExpr(call) }))
+	}
+	// the embedded sites Go rejects: each must fail to compile
+	for _, rs := range rsites {
+		fn := "R_" + p.ID + "_" + rs.k
+		perr := twin.Catch(func() {
+			if e := ir.Compile("func " + fn + "() {\n" + rs.code + "}"); e != nil {
+				ir.RunExpr(e)
+			}
+			ir.Compile(fn + "()")
+		})
+		if perr == nil {
+			out.WriteString("<" + rs.k + " NOT-REJECTED> ")
+		}
 	}
 	close(done)
 	res.Out = out.String()
@@ -834,6 +1012,9 @@ func c09Sig(p *oracle.Prog, want, got string) string {
 		return sig
 	}
 	sites := c09SiteRx.FindAllStringSubmatch(p.Body, -1)
+	for _, rs := range c09RSites(p.Body) {
+		sites = append(sites, []string{"", rs.k, rs.sig + "|interp-accepts"})
+	}
 	if len(sites) == 0 {
 		return "C09|?"
 	}
@@ -855,7 +1036,7 @@ func c09Sig(p *oracle.Prog, want, got string) string {
 				sig += "|interp-rejects"
 			}
 			if os.Getenv("VERIF_SIGLOG") != "" {
-				fmt.Printf("SIG\t%s\t%s\tsite %s\twant=%q\tgot=%q\n", sig, p.ID, st[1], w[st[1]], g[st[1]])
+				fmt.Printf("SIG\t%s\t%s\tsite %s\twant=%q\tgot=%q\t%s\n", sig, p.ID, st[1], w[st[1]], g[st[1]], p.Body[:strings.Index(p.Body, "\n")])
 			}
 			if first == "" {
 				first = sig
@@ -886,8 +1067,15 @@ var c09Ctx *core.Ctx
 
 func c09Key(p *oracle.Prog, want string) string {
 	sites := c09SiteRx.FindAllStringSubmatch(p.Body, -1)
-	if len(sites) == 0 || c09Ctx == nil {
+	rsites := c09RSites(p.Body)
+	if len(sites)+len(rsites) == 0 || c09Ctx == nil {
 		return p.ID + "|" + want
+	}
+	for _, rs := range rsites {
+		c09Ctx.Nontrivial("reject|" + p.ID + "#" + rs.k)
+	}
+	if len(rsites) > 0 {
+		c09Ctx.Count("rejected_sites_compiled", len(rsites))
 	}
 	w := c09Records(want)
 	for _, st := range sites {
@@ -906,7 +1094,10 @@ func init() {
 		ID: "C09",
 		Rule: "every embedding DAG over named struct types T0..T3 (every Tj embedded by ≥1 earlier type, by value or by pointer; quick: all DAGs of ≤3 types and 6 of the 21 four-type DAGs) × declaring subsets of field X, value method M, pointer method P " +
 			"(full product for ≤2 types, thorough also 3 types embedded all by value / all by pointer; otherwise one name at a time over all subsets, all names on one subset, M+P on one subset) × ~60 sites on a fresh T0 value (field read/write/address, calls on variable/pointer/rvalue, method values with bind-time receiver copy, " +
-			"method expressions, conversion to interpreted interfaces I{M()}, J{M();P()} or to fmt.Stringer/error, assertions back, type switches, promoted fields of every embedded type); plus named non-struct types with methods, interfaces embedding interfaces, structs embedding interfaces. " +
+			"method expressions, conversion to interpreted interfaces I{M()}, J{M();P()} or to fmt.Stringer/error, assertions back, type switches, promoted fields of every embedded type); plus named non-struct types with methods, interfaces embedding interfaces (explicit methods sorting before/after/around the embedded ones, with different signatures), structs embedding interfaces. " +
+			"HOMONYMS: every DAG of ≤3 types (thorough: 4) × one name Q given, independently per type, one of the roles absent / field int / field func / value method / pointer method × unrelated methods nowhere / on T0 / everywhere × ~20 sites (read, call, method value, assignment, address, interface conversion, method expression, the same on every embedded type explicitly); " +
+			"LATE DECLARATIONS: the same hierarchies with the methods of one type declared in a second chunk after every site has been compiled and run once (compiled Go sees one program). " +
+			"OVERLAPPING TYPE SWITCHES: tag ∈ interpreted interface, fmt.Stringer, interface{} × every ordered list of ≤3 (thorough: 4) distinct cases over concrete types (two pairs sharing one reflect.Type), interfaces, multi-type cases, nil, default × every dynamic value (most match several cases), with and without bound variable. " +
 			"go/types decides per site whether Go accepts it. Non-trivial = distinct (site class, lookup feature, compiled-Go record) triples of accepted sites + every rejected site",
 		Gen:           c09Programs,
 		Sig:           c09Sig,
@@ -914,6 +1105,8 @@ func init() {
 		Runner:        c09Run,
 		Key:           c09Key,
 		Assume: []string{"interface→interface assertions whose operand holds an interpreted type are a documented limitation and are not in the alphabet",
-			"the interpreter compiles and runs each site of a program separately after evaluating the declarations once (sites are independent by construction); compiled Go runs them as one function"},
+			"the interpreter compiles and runs each site of a program separately after evaluating the declarations once (sites are independent by construction); compiled Go runs them as one function",
+			"late declarations: the interpreter receives the declarations in two chunks with a warm-up run of every site in between; what is compared is the behaviour of sites compiled after the second chunk",
+			"a constant of an interpreted named type converted to an interface (documented limitation) is not in the alphabet: such values go through variables"},
 	})
 }
